@@ -72,6 +72,15 @@ def prefixes(tier, rnd):
     for lead in ["\\\n    ", "\\\n", "\\\r\n\t", "\\t", "\\n", "\\u{5b}ref: 5] ", "\\x5bref: 5] ", "\\\\", "\\\"", "\\0", "\\u{20}", "{}", "{{", "%s", "\n", "\t", "\r\n"]:
         for tok in ["[ref: 7] ", "[ref: 4294967295] ", "[ref: 0]"]:
             yield ("escape-led", lead + tok + "wrapped text", None)
+    # literals that span several source lines (plain line breaks, CRLF, backslash continuations) with a token at the very start,
+    # at the start of a later line, or indented on a later line: only the start of the literal counts
+    for nl in ["\n", "\r\n", "\\\n", "\\\n        ", "\n\n", "\n\t"]:
+        for tok in ["[ref: 7]", "[ref: 4294967295] ", "[ref: 0] "]:
+            yield ("multiline-token-first", tok + " first line" + nl + "second line", None)
+            yield ("multiline-token-first", tok + nl + "second line" + nl, None)
+            yield ("multiline-token-later", "first line" + nl + tok + " later line", None)
+            yield ("multiline-token-later", "known references:" + nl + tok + nl + "[ref: 12] another", None)
+            yield ("multiline-token-later", nl + tok + " after a leading line break", None)
     # ref-like text elsewhere
     for tok in ["[ref: 5] ", "[ref: 4294967295]", "ref = 5; "]:
         yield ("elsewhere-later", "msg then " + tok + "later", None)
